@@ -321,6 +321,17 @@ class Impl:
             self._lib()
             r = meth(**kwargs)
             return sx_rec(r)
+        if k == "ElemMethod":
+            r = self.rec(op[1])
+            kwargs = {p: self.val(v) for p, v in op[3]}
+            other = self.attrs(op[4])
+            if other:
+                kwargs["attributes"] = other
+            meth = getattr(r, op[2])
+            self._lib()
+            ret = meth(**kwargs)
+            assert ret is r
+            return sx_rec(r._bundle._records[-1])
         if k == "AddAttrs":
             r = self.rec(op[1]); attrs = self.attrs(op[2]); self._lib()
             r.add_attributes(attrs)
